@@ -20,7 +20,8 @@ from vf.core import hyp_run
 
 PROPERTY = 'C18'
 RULE = ('lists of 0..7 payloads (objects implementing raises(); a generated subset raise exceptions that the loop is asked to capture: '
-        'reraise=False and raises() empty or naming the class or a base class), max_workers 1..4, pickable in {identity, repr}, and schedules = '
+        'reraise=False and raises() empty or naming the class or a base class; the classes include user exceptions whose constructor does not take '
+        '.args or that hold an unpicklable attribute - for those a result may carry a stand-in that names the class), max_workers 1..4, pickable in {identity, repr}, and schedules = '
         'sequences of (how many pending futures complete before the loop looks again: 1 or 2, which ones). Exhaustive over all schedules '
         'for n <= 4 payloads and max_workers <= 2 (depth-first enumeration with replay), Hypothesis-drawn beyond; plus a sampled tier with '
         'real process pools through the public parproc(parallel=True) with generated per-task sleeps, compared with parallel=False. Oracle '
@@ -55,15 +56,42 @@ class CustomErr(Exception):
     pass
 
 
-EXC = {'ValueError': ValueError, 'KeyError': KeyError, 'LookupError': LookupError, 'ZeroDivisionError': ZeroDivisionError, 'ArithmeticError': ArithmeticError,
+class TwoArgErr(Exception):
+    """an ordinary user exception whose constructor does not take .args: pickles, but does not load back"""
+    def __init__(self, ident, what):
+        super().__init__(f'{what} in {ident}')
+        self.ident = ident
+        self.what = what
+
+
+class KwErr(Exception):
+    def __init__(self, message, *, code):
+        super().__init__(message)
+        self.code = code
+
+
+class HandleErr(Exception):
+    """carries something that cannot be pickled at all"""
+    def __init__(self, ident):
+        super().__init__(ident)
+        self.handle = lambda: ident
+
+
+# exceptions that cannot travel between processes as they are: a result may carry a stand-in that names the class
+NONPORTABLE = {'TwoArgErr': lambda i: TwoArgErr(i, 'oops'), 'KwErr': lambda i: KwErr(f'bad {i}', code=i), 'HandleErr': HandleErr}
+
+EXC = {'TwoArgErr': TwoArgErr, 'KwErr': KwErr, 'HandleErr': HandleErr,
+       'ValueError': ValueError, 'KeyError': KeyError, 'LookupError': LookupError, 'ZeroDivisionError': ZeroDivisionError, 'ArithmeticError': ArithmeticError,
        'Exception': Exception, 'CustomErr': CustomErr, 'OSError': OSError, 'FileNotFoundError': FileNotFoundError}
-PARENTS = {'KeyError': ['LookupError', 'Exception'], 'ZeroDivisionError': ['ArithmeticError', 'Exception'], 'FileNotFoundError': ['OSError', 'Exception'],
+PARENTS = {'TwoArgErr': ['Exception'], 'KwErr': ['Exception'], 'HandleErr': ['Exception'], 'KeyError': ['LookupError', 'Exception'], 'ZeroDivisionError': ['ArithmeticError', 'Exception'], 'FileNotFoundError': ['OSError', 'Exception'],
            'ValueError': ['Exception'], 'CustomErr': ['Exception'], 'LookupError': ['Exception'], 'OSError': ['Exception']}
 
 
 def work(p, *args, **kwargs):
     if p.sleep:
         time.sleep(p.sleep)
+    if p.exc in NONPORTABLE:
+        raise NONPORTABLE[p.exc](p.ident)
     if p.exc:
         raise EXC[p.exc](p.ident)
     return p.ident * 10
@@ -71,6 +99,10 @@ def work(p, *args, **kwargs):
 
 def key_of(r):
     e = r.exception
+    if e is not None and r.payload.exc in NONPORTABLE:
+        # "carrying the exception it raised": the exception itself, or a stand-in that names its class
+        named = type(e).__name__ == r.payload.exc or r.payload.exc in str(e) or r.payload.exc in repr(getattr(e, 'args', ''))
+        return (r.payload.ident, repr(r.outcome), 'nonportable:' + r.payload.exc if named else type(e).__name__, None)
     return (r.payload.ident, repr(r.outcome), type(e).__name__ if e is not None else None, repr(getattr(e, 'args', None)) if e is not None else None)
 
 
@@ -80,6 +112,8 @@ def model_key(p, pickable):
         out = work(p)
         return (p.ident, repr(pickable(out)), None, None)
     except Exception as e:
+        if p.exc in NONPORTABLE:
+            return (p.ident, repr(pickable(None)), 'nonportable:' + p.exc, None)
         return (p.ident, repr(pickable(None)), type(e).__name__, repr(e.args))
 
 
@@ -264,7 +298,7 @@ def gen_spec(rnd, n):
     spec = []
     for _ in range(n):
         if rnd.random() < 0.4:
-            exc = rnd.choice(['ValueError', 'KeyError', 'ZeroDivisionError', 'CustomErr', 'FileNotFoundError'])
+            exc = rnd.choice(['ValueError', 'KeyError', 'ZeroDivisionError', 'CustomErr', 'FileNotFoundError', 'TwoArgErr', 'KwErr', 'HandleErr'])
             r = rnd.random()
             allowed = [] if r < 0.4 else [exc] if r < 0.7 else [rnd.choice(PARENTS[exc])]
             spec.append((exc, allowed))
